@@ -7,6 +7,7 @@ fn main() {
     println!("cargo:rerun-if-env-changed=RWS_SRC");
     println!("cargo:rerun-if-changed={}/main.rs", src);
     println!("cargo:rustc-check-cfg=cfg(rws_verif)");
+    println!("cargo:rustc-env=RWS_SRC_RESOLVED={}", src);
     let main_rs = fs::read_to_string(format!("{}/main.rs", src)).expect("read main.rs");
     let mut out = String::new();
     for line in main_rs.lines() {
